@@ -343,7 +343,7 @@ def S4(inp, chunks, event, lose=False, observer=False):
 
 
 # ---------------------------------------------------------------------------------------
-@obligation('S5', props=('C09', 'C06'), quick=[dict(mode='dump'), dict(mode='incoming'), dict(mode='interleaved')], stubs=_STUBS + ('files on the symbolic disk of pvf.disk (primitive writes logged, kill between any two)',),
+@obligation('S5', props=('C09', 'C06'), quick=[dict(mode='dump'), dict(mode='incoming'), dict(mode='interleaved'), dict(mode='fork_child_late')], stubs=_STUBS + ('files on the symbolic disk of pvf.disk (primitive writes logged, kill between any two)', 'fork mode: the dump child is a second Serializer object whose primitives run after the parent installed a received snapshot'),
             bounds='one dump write (tmp file + atomic rename) or one incoming chunked transfer of 2 chunks into the dump path; kill before/after every primitive (case split: enumeration)')
 def S5(inp, mode):
     """the dump file is always a complete old or a complete new snapshot: a kill at any point of the dump write or of an
@@ -365,6 +365,25 @@ def S5(inp, mode):
             data = ('DATA', 1)
             _, exc = guard(s.serialize, data, 7)
             ok_state, _ = s.checkSerializing()
+        elif mode == 'fork_child_late':
+            # fork mode: the node's own dump child is still writing (older state) while a snapshot received from the leader is
+            # installed; the child gets to its rename only afterwards (if it is still allowed to run)
+            s = ser_mod.Serializer('dump', 3, True, None, None, None)
+            parent_os = _OsFork(False)
+            ser_mod.os = parent_os
+            _, exc = guard(s.serialize, ('OWN', 1), 7)                      # parent: forks and returns
+            c1, c2 = Blob.fresh(('new', 1), 5), Blob.fresh(('new', 2), 4)
+            r1, exc = guard(s.setTransmissionData, (c1, True, False)) if exc is None else (None, exc)
+            r2, exc = guard(s.setTransmissionData, (c2, False, False)) if exc is None else (None, exc)
+            r3, exc = guard(s.setTransmissionData, (Blob(), False, True)) if exc is None else (None, exc)
+            if parent_os.alive:
+                child = ser_mod.Serializer('dump', 3, True, None, None, None)
+                ser_mod.os = _OsFork(True)
+                try:
+                    child.serialize(('OWN', 1), 7)
+                except _ChildExit:
+                    pass
+                ser_mod.os = parent_os
         else:
             c1, c2 = Blob.fresh(('new', 1), 5), Blob.fresh(('new', 2), 4)
             r1, exc = guard(s.setTransmissionData, (c1, True, False))
@@ -390,7 +409,7 @@ def S5(inp, mode):
             is_old = dump is not None and bool(Blob.coerce(dump).same(old))
             is_new = dump is not None and bool(Blob.coerce(dump).same(c1 + c2))
             is_own = isinstance(dump, Blob) and dump.sole_origin() is not None and dump.sole_origin()[0][0] == 'token'
-            cl['dump_is_complete_old_or_new'] = is_old or is_new or (mode == 'interleaved' and is_own)
+            cl['dump_is_complete_old_or_new'] = is_old or is_new or (mode in ('interleaved', 'fork_child_late') and is_own)
             cl['install_reported_only_at_the_end'] = (r1, r2, r3) == (False, False, True)
             if cut == nprim:
                 cl['completed_transfer_visible'] = is_new
@@ -409,6 +428,37 @@ class _OsNoFork:
     @staticmethod
     def fork():
         raise OSError('fork not modelled')
+
+
+class _ChildExit(BaseException):
+    pass
+
+
+class _OsFork:
+    """os stand-in modelling the dump child: fork() answers 4242 in the parent and 0 in the object standing for the child;
+    the child ends with _exit; kill/waitpid end the child (it performs no further primitive)"""
+
+    def __init__(self, child):
+        self.child, self.killed, self.alive = child, [], True
+
+    def fork(self):
+        return 0 if self.child else 4242
+
+    def _exit(self, code):
+        raise _ChildExit(code)
+
+    def kill(self, pid, sig):
+        self.killed.append((pid, sig))
+        self.alive = False
+
+    def waitpid(self, pid, flags):
+        if not self.alive:
+            return (pid, 9)
+        return (0, 0)
+
+    def __getattr__(self, name):
+        import os as _os
+        return getattr(_os, name)
 
 
 class _OsWait:
